@@ -308,7 +308,7 @@ func c02Run(s *Shard) {
 	// (b) histories
 	var pc []CorpusReq
 	for i, r := range corpus {
-		if !quick(s) || i%3 == 0 {
+		if !quick(s) || i%3 == 0 || r.Always {
 			pc = append(pc, r)
 		}
 	}
